@@ -715,28 +715,72 @@ func ruleC17NoWrongTarget(c *Ctx) {
 		c.R.Unknown(rule, "index-bounds", "", "no reflect.Value.Index call in the pointer walker")
 	} else {
 		n := idxCall.Call.Args[1]
-		lower, upper := false, false
-		for _, br := range fi.DomGuards(idxCall.Block()) {
-			cond, pol := br.Cond()
-			bo, ok := cond.(*ssa.BinOp)
+		isLenCall := func(v ssa.Value) bool {
+			call, ok := v.(*ssa.Call)
+			return ok && core.CalleeKey(&call.Call) == "reflect.Value.Len"
+		}
+		lower, upper := boundsFrom(guardsOf(idxCall), n, isLenCall)
+		// the index may be produced by a helper that validates it: (n, err) := h(seg, v.Len()); every
+		// success return of h is then guarded by both bounds against the parameter that receives the length
+		for _, src := range traceSources(n) {
+			ex, ok := src.(*ssa.Extract)
+			if !ok || ex.Index != 0 {
+				continue
+			}
+			hc, ok := ex.Tuple.(*ssa.Call)
 			if !ok {
 				continue
 			}
-			uses := func(v ssa.Value) bool { return v == n || dependsOn(v, []ssa.Value{n}, 2) || sameLoadSource(v, n) }
-			isZero := func(v ssa.Value) bool { k, ok := v.(*ssa.Const); return ok && k.Value != nil && k.Value.String() == "0" }
-			isLen := func(v ssa.Value) bool {
-				call, ok := v.(*ssa.Call)
-				return ok && core.CalleeKey(&call.Call) == "reflect.Value.Len"
+			h := hc.Call.StaticCallee()
+			if h == nil || !c.transparent(h) || h.Signature.Results().Len() != 2 {
+				continue
 			}
-			switch {
-			case uses(bo.X) && isZero(bo.Y) && ((bo.Op == token.LSS && !pol) || (bo.Op == token.GEQ && pol)):
-				lower = true
-			case uses(bo.X) && isLen(bo.Y) && ((bo.Op == token.GEQ && !pol) || (bo.Op == token.LSS && pol)):
-				upper = true
-			case isZero(bo.X) && uses(bo.Y) && ((bo.Op == token.GTR && !pol) || (bo.Op == token.LEQ && pol)):
-				lower = true
-			case isLen(bo.X) && uses(bo.Y) && ((bo.Op == token.LEQ && !pol) || (bo.Op == token.GTR && pol)):
-				upper = true
+			// the access happens only when the helper reported success
+			succeeded := false
+			for _, g := range guardsOf(idxCall) {
+				if x, k, equal, ok := eqConst(g); ok && k.IsNil() && equal {
+					if e2, ok := x.(*ssa.Extract); ok && e2.Tuple == hc && e2.Index == 1 {
+						succeeded = true
+					}
+				}
+				if e2, ok := g.Cond.(*ssa.Extract); ok && g.Pol && e2.Tuple == hc && e2.Index == 1 && isBoolType(e2.Type()) {
+					succeeded = true
+				}
+			}
+			if !succeeded {
+				continue
+			}
+			isLenParam := func(v ssa.Value) bool {
+				p, ok := v.(*ssa.Parameter)
+				if !ok || p.Parent() != h {
+					return false
+				}
+				for k, q := range h.Params {
+					if q == p && k < len(hc.Call.Args) {
+						return isLenCall(hc.Call.Args[k])
+					}
+				}
+				return false
+			}
+			allLower, allUpper, nSucc := true, true, 0
+			core.EachInstr(h, func(i ssa.Instruction) {
+				ret, ok := i.(*ssa.Return)
+				if !ok || len(ret.Results) != 2 {
+					return
+				}
+				if k, ok := ret.Results[1].(*ssa.Const); ok && (k.IsNil() && !isBoolType(k.Type()) || isBoolType(k.Type()) && k.Value != nil && k.Value.String() == "true") {
+					nSucc++
+					lo, up := boundsFrom(guardsOf(ret), ret.Results[0], isLenParam)
+					allLower = allLower && lo
+					allUpper = allUpper && up
+				} else if !ok {
+					// a non-constant second result: success cannot be told apart
+					allLower, allUpper = false, false
+				}
+			})
+			if nSucc > 0 {
+				lower = lower || allLower
+				upper = upper || allUpper
 			}
 		}
 		c.R.Check(lower, rule, "index-bounds:lower", c.pos(idxCall), "the index is known to be >= 0 at the access", "the array index is not checked against 0 before reflect.Value.Index (strconv.Atoi accepts \"-1\"): panic")
@@ -1002,7 +1046,20 @@ func ruleC20Fresh(c *Ctx) {
 		}
 	})
 	n := 0
-	core.EachInstr(cl, func(i ssa.Instruction) {
+	seenI := map[ssa.Instruction]bool{}
+	var famIs []ssa.Instruction
+	for _, fi := range c.familyInstrs(cl) {
+		if !seenI[fi.I] {
+			seenI[fi.I] = true
+			famIs = append(famIs, fi.I)
+		}
+	}
+	each := func(f func(i ssa.Instruction)) {
+		for _, i := range famIs {
+			f(i)
+		}
+	}
+	each(func(i ssa.Instruction) {
 		switch x := i.(type) {
 		case *ssa.Store:
 			ia, ok := x.Addr.(*ssa.IndexAddr)
@@ -1398,4 +1455,28 @@ func ruleC17SpecialOwnKeyword(c *Ctx) {
 		}
 	})
 	c.R.Floor(rule, "special-cased field selections", n, 5)
+}
+
+// boundsFrom: which of `n >= 0` and `n < length` the guards establish, where isLen recognises the length value.
+func boundsFrom(guards []guardAtom, n ssa.Value, isLen func(ssa.Value) bool) (lower, upper bool) {
+	uses := func(v ssa.Value) bool { return v == n || dependsOn(v, []ssa.Value{n}, 2) || sameLoadSource(v, n) }
+	isZero := func(v ssa.Value) bool { k, ok := v.(*ssa.Const); return ok && k.Value != nil && k.Value.String() == "0" }
+	for _, g := range guards {
+		bo, ok := g.Cond.(*ssa.BinOp)
+		if !ok {
+			continue
+		}
+		pol := g.Pol
+		switch {
+		case uses(bo.X) && isZero(bo.Y) && ((bo.Op == token.LSS && !pol) || (bo.Op == token.GEQ && pol)):
+			lower = true
+		case uses(bo.X) && isLen(bo.Y) && ((bo.Op == token.GEQ && !pol) || (bo.Op == token.LSS && pol)):
+			upper = true
+		case isZero(bo.X) && uses(bo.Y) && ((bo.Op == token.GTR && !pol) || (bo.Op == token.LEQ && pol)):
+			lower = true
+		case isLen(bo.X) && uses(bo.Y) && ((bo.Op == token.LEQ && !pol) || (bo.Op == token.GTR && pol)):
+			upper = true
+		}
+	}
+	return
 }
